@@ -262,7 +262,7 @@ PROPS["C17"] = dict(
     note=E1_NOTE + " The functions depend on (extent, kernel, stride, mode) only; these are constants, so the float quotient is folded by the compiler. Decided after the repair `fix: pooling in ceil mode drops a last window that would start beyond the input` (F35).",
     technique=E1_TECH + " (exhaustive enumeration of pooling parameters)",
     e2=[dict(rule="R-REDAXIS")],
-    e1=[dict(tu="c17_pool.cpp"), dict(tu="c17b_conv_shape.cpp", flags=["-DC17B_PART=1"]), dict(tu="c17b_conv_shape.cpp", flags=["-DC17B_PART=2"]), dict(tu="c17c_pool_elem.cpp"), dict(tu="c17c_pool_elem.cpp", flags=["-DVERIF_RT_KIND"])],
+    e1=[dict(tu="c17_pool.cpp"), dict(tu="c17b_conv_shape.cpp", flags=["-DC17B_PART=1"]), dict(tu="c17b_conv_shape.cpp", flags=["-DC17B_PART=2"]), dict(tu="c17c_pool_elem.cpp"), dict(tu="c17c_pool_elem.cpp", flags=["-DVERIF_RT_KIND"]), dict(tu="c17d_nn_elem.cpp")],
     rule=E1_RULE,
     explanation="shape_pool2d / slice_pool2d are integer functions of four small parameters per axis; each (parameter combination, clause) is one obligation against the formula of the property statement.",
     not_decided="every element law of C17 except max pooling on the listed shapes (average pooling, conv1d / conv2d, softmax / softmin, the normalisations, linear, bilinear, pairwise_distance, cosine_similarity); convolution with a batch above 1 or with groups (conv2d does not build / aborts there on the unchanged tree); pooling extents above 7",
